@@ -21,4 +21,5 @@ HARNESSES = [
     ("wh", ("walrus_verif", "walrus_verif_small"), False),
     ("dwh", (), False),
     ("dwh", (), True),
+    ("owh", (), False),
 ]
